@@ -182,6 +182,8 @@ func run(e *ev.Env) {
 	corpus("tie-params", kMedia, []offer{moP("text", "html", prm{name: "a", val: "1"}), moP("text", "html", prm{name: "a", val: "1"}, prm{name: "b", val: "2"})}, true,
 		mr("text/html", "", prm{name: "a", val: "1"}), mr("text/html", "", prm{name: "a", val: "1"}, prm{name: "b", val: "2"}))
 
+	legacyCorpus(e, g)
+
 	// ---- generated families -----------------------------------------------------------------
 	e.Cases("media", e.N(90000, 9000000), func(c *ev.Case) {
 		s := newSess(e, c, g, 0)
@@ -227,6 +229,7 @@ func run(e *ev.Env) {
 		s := newSess(e, c, g, 0)
 		s.totality(c.R)
 	})
+	legacyFamily(e, g)
 	if e.Only == "" && ntSeen.Load() == 0 {
 		e.Inconclusive("no case with two ranges accepting different offers was produced")
 	}
